@@ -34,7 +34,7 @@ def features_for(i):
   elif k == 2:
     f.update({'neg': 0.9, 'combine': 0.2})
   elif k == 3:
-    f.update({'agg': 0.9, 'argminmax': 0.8})
+    f.update({'agg': 0.9, 'argminmax': 0.8, 'argk': 0.7, 'max_facts': 6})
   return f
 
 
